@@ -129,6 +129,8 @@ pub struct FirstIn<'a> {
     pub may_substitute: bool,
     /// extension list passed to encap_ext (empty: encap)
     pub exts: &'a [(u16, Vec<u8>)],
+    /// what a receiver knows about the mandatory extension ids (None: the harness-wide table)
+    pub mand: Option<&'a dyn Fn(u16) -> Option<(bool, usize)>>,
 }
 
 /// A failed clause: (clause id used in signatures, human text)
@@ -175,7 +177,11 @@ pub fn wf_first<C: CrcCalculator>(i: &FirstIn, out: &EncOut, buf: &[u8], sentine
         f.push(("kind-bits".into(), format!("S/E bits say {} but the status is {}", kind.name(), out.class())));
         return (f, None);
     }
-    let p = match refm::parse(&buf[..n], &full_mand) {
+    let table: &dyn Fn(u16) -> Option<(bool, usize)> = match i.mand {
+        Some(t) => t,
+        None => &full_mand,
+    };
+    let p = match refm::parse(&buf[..n], table) {
         Ok(p) => p,
         Err(e) => {
             f.push(("unparsable".into(), format!("packet does not parse: {:?}", e)));
@@ -215,7 +221,7 @@ pub fn wf_first<C: CrcCalculator>(i: &FirstIn, out: &EncOut, buf: &[u8], sentine
         for (k, (id, d)) in i.exts.iter().enumerate() {
             s += d.len();
             let last = k + 1 == i.exts.len();
-            let final_mand = last && *id < 0x0100 && full_mand(*id).map(|x| x.0).unwrap_or(false);
+            let final_mand = last && *id < 0x0100 && table(*id).map(|x| x.0).unwrap_or(false);
             if !final_mand {
                 s += 2;
             }
